@@ -11,3 +11,67 @@ pub(crate) fn mk_blake_rng(buffer: [u8; BUFFER_SIZE], seed: PRNGSeed, counter: u
     BlakeRNG { buffer, seed, counter, buffer_current }
 }
 pub(crate) const BUF: usize = BUFFER_SIZE;
+
+#[cfg(kani)]
+mod proofs {
+    use super::*;
+    use rand::RngCore;
+
+    /// `refill_buffer` replacement: the next block of a harness-global symbolic stream (two blocks).
+    /// BLAKE3 itself (output quality, dependence on the seed) is outside the claim.
+    static mut BLOCKS: [[u8; BUFFER_SIZE]; 2] = [[0; BUFFER_SIZE]; 2];
+    fn refill_stub(this: &mut BlakeRNG) {
+        unsafe { this.buffer = BLOCKS[(this.counter & 1) as usize]; }
+        this.buffer_current = 0;
+        this.counter = this.counter.wrapping_add(1);
+    }
+    fn stream_at(i: usize) -> u8 { unsafe { BLOCKS[i / BUFFER_SIZE][i % BUFFER_SIZE] } }
+
+    // @harness id=C16 tier=quick unwind=10 timeout=1200 memmodel=loop mcw=4
+    // @desc fill_bytes output is the seeded stream prefix regardless of chunking: two consecutive reads of symbolic lengths (also straddling the 4096-byte refill) return exactly stream[pos..pos+l1] and stream[pos+l1..pos+l1+l2]; the refill counter advances once per refill; next_u32/next_u64 return the little-endian words at the next 4-/8-aligned stream offset
+    // @bounds generator state: any buffer position in the last 24 bytes before a refill or right after one; read lengths 0..16 each; stream = two arbitrary 4096-byte blocks
+    // @funcs BlakeRNG::fill_bytes, BlakeRNG::next_u32, BlakeRNG::next_u64, BlakeRNG::try_fill_bytes
+    // @stubs BlakeRNG::refill_buffer -> next block of a symbolic stream (BLAKE3 XOF outside the claim)
+    #[kani::proof]
+    #[kani::stub(super::BlakeRNG::refill_buffer, refill_stub)]
+    fn c16_fill_bytes_chunking() {
+        let b0: [u8; BUFFER_SIZE] = kani::any(); let b1: [u8; BUFFER_SIZE] = kani::any();
+        unsafe { BLOCKS[0] = b0; BLOCKS[1] = b1; }
+        // state as left by refill #1 (counter = 1, buffer = block 0), position near the end
+        let pos: usize = kani::any(); kani::assume(pos >= BUFFER_SIZE - 24 && pos <= BUFFER_SIZE);
+        let mut g = mk_blake_rng(b0, PRNGSeed([0; 64]), 1, pos);
+        let c: u8 = kani::any();
+        match c {
+            0 => {
+                let l1: usize = kani::any(); let l2: usize = kani::any(); kani::assume(l1 <= 16 && l2 <= 16);
+                let mut d1 = [0u8; 16]; let mut d2 = [0u8; 16];
+                g.fill_bytes(&mut d1[..l1]); g.fill_bytes(&mut d2[..l2]);
+                let k: usize = kani::any(); kani::assume(k < 16);
+                kani::cover!(pos + l1 < BUFFER_SIZE && pos + l1 + l2 > BUFFER_SIZE && k < l2);
+                if k < l1 { assert!(d1[k] == stream_at(pos + k)); }
+                if k < l2 { assert!(d2[k] == stream_at(pos + l1 + k)); }
+                assert!(g.counter == if pos + l1 + l2 > BUFFER_SIZE { 2 } else { 1 });
+            }
+            1 => {
+                let w = g.next_u64();
+                let a = (pos + 7) & !7;
+                let at = if a + 8 > BUFFER_SIZE { BUFFER_SIZE } else { a };
+                let mut e = 0u64; let mut i = 0;
+                while i < 8 { e |= (stream_at(at + i) as u64) << (8 * i); i += 1; }
+                kani::cover!(at == BUFFER_SIZE);
+                assert!(w == e);
+                assert!(g.counter == if at == BUFFER_SIZE { 2 } else { 1 });
+            }
+            _ => {
+                let w = g.next_u32();
+                let a = (pos + 3) & !3;
+                let at = if a + 4 > BUFFER_SIZE { BUFFER_SIZE } else { a };
+                let mut e = 0u32; let mut i = 0;
+                while i < 4 { e |= (stream_at(at + i) as u32) << (8 * i); i += 1; }
+                assert!(w == e);
+            }
+        }
+    }
+
+    #[cfg(test)] include!("/verif/.build/playback/util_random_generator_v.rs");
+}
